@@ -1198,6 +1198,9 @@ func (t *ZeroAllocTokenizer) TokenizeOptimized() ([]Token, error) {
 			case TAG_COMMENT:
 				unclosedType = "comment"
 			}
+			if tagLoc.Type == TAG_COMMENT {
+				return nil, fmt.Errorf("unclosed comment at line %d", t.line)
+			}
 			return nil, fmt.Errorf("unclosed %s tag at line %d", unclosedType, t.line)
 		}
 
@@ -1209,29 +1212,25 @@ func (t *ZeroAllocTokenizer) TokenizeOptimized() ([]Token, error) {
 		var endTokenType int
 		var endLength int
 
+		// A closing delimiter trims when it is preceded by a dash that belongs to
+		// the tag content, whatever the opening delimiter looks like
+		closesWithDash := tagEndPos > tagContentStart && t.source[tagEndPos-1] == '-'
+
 		switch tagLoc.Type {
-		case TAG_VAR:
-			endTokenType = TOKEN_VAR_END
-			endLength = 2 // }}
-		case TAG_VAR_TRIM:
-			// Check if it ends with -}}
-			if tagEndPos > 0 && t.source[tagEndPos-1] == '-' {
+		case TAG_VAR, TAG_VAR_TRIM:
+			if closesWithDash {
 				endTokenType = TOKEN_VAR_END_TRIM
-				endLength = 3 // -}}
+				endLength = 2 // tagEndPos is the position of }}, the dash lies before it
 				// Adjust tag content to remove the trailing dash
 				tagContent = tagContent[:len(tagContent)-1]
 			} else {
 				endTokenType = TOKEN_VAR_END
 				endLength = 2 // }}
 			}
-		case TAG_BLOCK:
-			endTokenType = TOKEN_BLOCK_END
-			endLength = 2 // %}
-		case TAG_BLOCK_TRIM:
-			// Check if it ends with -%}
-			if tagEndPos > 0 && t.source[tagEndPos-1] == '-' {
+		case TAG_BLOCK, TAG_BLOCK_TRIM:
+			if closesWithDash {
 				endTokenType = TOKEN_BLOCK_END_TRIM
-				endLength = 3 // -%}
+				endLength = 2 // tagEndPos is the position of %}, the dash lies before it
 				// Adjust tag content to remove the trailing dash
 				tagContent = tagContent[:len(tagContent)-1]
 			} else {
@@ -1255,9 +1254,7 @@ func (t *ZeroAllocTokenizer) TokenizeOptimized() ([]Token, error) {
 
 			if tagLoc.Type == TAG_BLOCK || tagLoc.Type == TAG_BLOCK_TRIM {
 				// Process block tags using specialized tokenization
-				if len(tagContent) > 0 {
-					t.processBlockTag(tagContent)
-				}
+				t.processBlockTag(tagContent)
 			} else {
 				// Process variable tags using optimized tokenization
 				if len(tagContent) > 0 {
